@@ -343,6 +343,16 @@ Section Clauses.
   Qed.
 End Clauses.
 
+(* no internal pair anywhere in a value *)
+Fixpoint has_exp (v : cv) : bool :=
+  match v with
+  | CExp _ _ => true
+  | CList l => existsb has_exp l
+  | CMap m => existsb (fun kv => has_exp (snd kv)) m
+  | _ => false
+  end.
+
+
 (* ---- the checker on values, and the LINK back to the model -------------------------------------------------- *)
 Section Link.
   Variable def : str.
@@ -380,11 +390,15 @@ Section Link.
       end
     else [].
 
+  (* clause 7: the public view ToStringMap holds typed values, never the internal expandedValue pair *)
+  Definition code_wrapper (o : cobs) : list nat :=
+    match o with Ok (_, tsm) => if has_exp tsm then [7] else [] | Err _ => [] end.
+
   Definition codes_cv (srcs : list cv) (o : cobs) : list nat :=
     match srcs with
     | [CMap m] => codes_single m o
     | _ => codes_multi srcs o
-    end.
+    end ++ code_wrapper o.
 
   (* the observation the harness would record if the implementation WERE the model *)
   Definition observe (r : res cv) : cobs :=
@@ -483,6 +497,17 @@ Section Link.
     - discriminate.
   Qed.
 
+  (* after fix 43b4ee065: ToStringMap / Get never show the internal pair, whatever the value *)
+  Lemma sanitize_wrapper_free v : has_exp (sanitize v) = false.
+  Proof.
+    unfold sanitize. induction v as [| | | |s|l IH|m IH|x o IH] using cv_ind'; try reflexivity.
+    - cbn [sanitize_gen has_exp]. induction IH as [|y r Hy Hr IHr]; [reflexivity|].
+      cbn [map existsb]. now rewrite Hy, IHr.
+    - cbn [sanitize_gen has_exp]. induction IH as [|[k y] r Hy Hr IHr]; [reflexivity|].
+      cbn [map existsb snd] in *. now rewrite Hy, IHr.
+    - cbn [sanitize_gen]. exact IH.
+  Qed.
+
   Lemma cv_eqb_refl v : cv_eqb v v = true.
   Proof. now apply cv_eqb_eq. Qed.
 
@@ -568,10 +593,13 @@ Section Link.
   Theorem model_passes_checker srcs :
     keys_distinct srcs -> codes_cv srcs (observe (resolve def retrieve srcs)) = [].
   Proof.
-    intros H. destruct srcs as [|w [|w2 r]].
+    intros H. unfold codes_cv.
+    assert (Hw : code_wrapper (observe (resolve def retrieve srcs)) = []).
+    { unfold code_wrapper, observe. destruct (resolve def retrieve srcs) as [t|e]; [|reflexivity].
+      now rewrite sanitize_wrapper_free. }
+    rewrite Hw, app_nil_r. destruct srcs as [|w [|w2 r]].
     - exact (model_passes_multi []).
-    - destruct w; try exact (model_passes_multi [_]). cbn [keys_distinct] in H.
-      change (codes_single m (observe (resolve def retrieve [CMap m])) = []). now apply model_passes_single.
+    - destruct w; try exact (model_passes_multi [_]). cbn [keys_distinct] in H. now apply model_passes_single.
     - destruct w; exact (model_passes_multi (_ :: w2 :: r)).
   Qed.
 End Link.
@@ -609,7 +637,7 @@ Proof.
 Qed.
 
 Lemma codes_err_irrel def retrieve srcs e e' : codes_cv def retrieve srcs (Err e) = codes_cv def retrieve srcs (Err e').
-Proof. destruct srcs as [|w [|w2 r]]; try reflexivity; destruct w; reflexivity. Qed.
+Proof. unfold codes_cv. destruct srcs as [|w [|w2 r]]; try reflexivity; destruct w; reflexivity. Qed.
 
 Theorem model_case_passes cfg srcs :
   keys_distinct (map of_w srcs) -> prop_ok (model_case cfg srcs) = true.
@@ -620,3 +648,20 @@ Proof.
   - now rewrite !of_w_to_w, Hm.
   - now rewrite (codes_err_irrel _ _ _ [] e), Hm.
 Qed.
+
+(* ---- regression witness of finding C12-WRAPPERLEAK (repaired by 43b4ee065) ---------------------------------------------------------- *)
+(* receivers: ${file:r}   with   file:r = {port: "${env:P}"}   and   env:P = 4317 *)
+Require Coq.Strings.String.
+Import Coq.Strings.String.StringSyntax.
+Local Open Scope string_scope.
+Definition leak_retrieve (sch opq : str) : res retrieved :=
+  if str_eqb sch (s2l "file") then Ok (mkRet (CMap [(s2l "port", CStr (s2l "${env:P}"))]) (Some (s2l "port: ${env:P}")))
+  else Ok (mkRet (CInt 4317) (Some (s2l "4317"))).
+Definition leak_srcs : list cv := [CMap [(s2l "receivers", CStr (s2l "${file:r}"))]].
+
+Definition leak_def : str := s2l "env".
+(* regression of the repaired finding C12-WRAPPERLEAK: the port is typed in ToStringMap *)
+Definition leak_typed_view : cv := CMap [(s2l "receivers", CMap [(s2l "port", CInt 4317)])].
+Lemma wrapper_leak_regression :
+  exists t, resolve leak_def leak_retrieve leak_srcs = Ok t /\ sanitize t = leak_typed_view.
+Proof. eexists. split; vm_compute; reflexivity. Qed.
